@@ -433,6 +433,19 @@ impl CustomFontD {
 }
 
 impl Desc {
+    /// Work a drawable may legitimately hand to a target beyond what its bounding box suggests:
+    /// the lines of a multi-line text overlap when the line height is smaller than the font, so the
+    /// box does not bound the number of glyph pixels. Added to every step budget derived from a box.
+    pub fn overlap_allowance(&self) -> u64 {
+        match self {
+            Desc::Text(t) => {
+                let n = t.text.chars().count() as u64;
+                let (cw, ch, sp) = t.with_font(|f| (f.character_size.width as u64, f.character_size.height as u64, f.character_spacing as u64));
+                n * ((cw + sp) * (ch + 4) * 2 + 8) + 64
+            }
+            _ => 0,
+        }
+    }
     /// Constructs the concrete drawable and hands it to the visitor.
     pub fn visit<C: ZCol, V: Visitor<C>>(&self, v: &mut V) -> V::Out {
         match self {
